@@ -159,9 +159,9 @@ CHECKS["C10"] = dict(
          "ATR >= 0, EMA inside the range of its inputs, stored readings are fixed points of rounding; and about the engine's own "
          "_calculate_reading models, any store and index: Aroon up/down in [0,100] with oscillator = up - down, Donchian middle = mean "
          "of its bounds and between them, Keltner and Bollinger band order, MACD histogram = MACD - signal, Supertrend direction/long/"
-         "short/trend. " + ENGINE_TIE +
+         "short/trend, Stochastic oscillator value in [0,100] for inputs between the candle's low and high. " + ENGINE_TIE +
          "Falsifier: every relation of the property text on the implementation's output.",
-    note="STOCH/ADX/TSI ranges, Donchian enclosure, the accumulation of rounding in the identities after the final rounding: "
+    note="Stochastic k/d (averages of the oscillator), ADX/TSI ranges, Donchian enclosure, the accumulation of rounding in the identities after the final rounding: "
          "correspondence + falsifier. Real-number axioms as for C04.",
     technique="Coq proof over R + vm_compute correspondence + relation falsifier", design="5/C10")
 CHECKS["C13"] = dict(
